@@ -102,6 +102,10 @@ def run_cell(cell):
         return cell_deepspec(cell)
     if kind == 'pairs':
         return cell_pairs(cell)
+    if kind == 'setstate':
+        return cell_setstate(cell)
+    if kind == 'setstate_sweep':
+        return cell_setstate_sweep(cell)
     return {'status': 'harness', 'msg': 'unknown cell'}
 
 
@@ -716,6 +720,182 @@ def cell_args(cell):
     return {'status': 'args', 'calls': n, 'internal_errors': internal}
 
 
+# ------------------------------------------------------------------ hostile pickle states (__setstate__)
+_SS_BASES = None
+
+
+def setstate_bases():
+    """states of four treespecs covering every node kind (as plain lists so that they can be edited)"""
+    global _SS_BASES
+    if _SS_BASES is None:
+        import optree
+        from collections import OrderedDict, defaultdict, deque
+        from vlib import universe as U
+        trees = [({'b': (1, [2, 3]), 'n': None, 'd': deque([1, 2], maxlen=3), 'o': OrderedDict(z=1, y=2), 'dd': defaultdict(list, q=[1])}, False),
+                 ([U.NT2(1, (2, 3)), os.terminal_size((1, 2)), U.CG(4, [5]), (), [], U.DCI(1, 2)], False),
+                 ((None, {'k': None, 'j': [None]}, 7), True),
+                 (5, False)]
+        _SS_BASES = [optree.tree_structure(t, none_is_leaf=nil).__getstate__() for t, nil in trees]
+    return _SS_BASES
+
+
+def setstate_values(field, cur):
+    from vlib import universe as U
+    if field in (0, 1, 5, 6):
+        c = cur if isinstance(cur, int) else 0
+        return [0, 1, 2, 3, 4, 5, 6, 7, 8, 9, 10, -1, 10 ** 6, c + 1, c - 1, c + 2, 2 ** 63 - 1, -2 ** 63, 2 ** 64, None, 'x', 1.0]
+    if field == 2:
+        return [None, [], ['a'], ['a', 'b'], ['a', 'b', 'c'], (list, []), (list,), (list, ['q']), (list, ['q', 'r']), (list, 'qr'), (None, ['a'], 1),
+                3, 10 ** 6, -1, list, tuple, U.NT0, U.NT1, U.NT2, U.NTSub, os.terminal_size, time_struct(), 'str', (), ('a', 'b'), U.TupleSub]
+    if field == 3:
+        return [None, (), ('a',), ('a', 'b'), ('a', 'b', 'c'), ['a'], 5]
+    if field == 4:
+        return [None, U.CG, U.DCI, list, int, 5, U.Leaf]
+    return [None, [], ['a'], ['a', 'b'], ['z', 'y', 'x'], ('a',), 5]
+
+
+def time_struct():
+    import time
+    return time.struct_time
+
+
+def setstate_apply(case):
+    nodes, nil, ns = setstate_bases()[case['base'] % 4]
+    nodes = [list(n) for n in nodes]
+    for op, i, field, vi in case['edits']:
+        if not nodes:
+            break
+        i %= len(nodes)
+        if op == 'set':
+            field %= 8
+            vals = setstate_values(field, nodes[i][field] if field < len(nodes[i]) else None)
+            if field < len(nodes[i]):
+                nodes[i][field] = vals[vi % len(vals)]
+        elif op == 'del':
+            del nodes[i]
+        elif op == 'dup':
+            nodes.insert(i, list(nodes[i]))
+        elif op == 'swap':
+            j = (i + 1) % len(nodes)
+            nodes[i], nodes[j] = nodes[j], nodes[i]
+        elif op == 'trunc':
+            nodes[i] = (nodes[i] + [None, None])[:(0, 1, 6, 7, 9, 10)[vi % 6]]
+        elif op == 'subtree':      # move a whole node range: take the last `field` nodes before i out
+            k = 1 + field % 3
+            del nodes[max(0, i - k):i]
+    top = case.get('top', 0)
+    if top == 1:
+        nil = not nil
+    elif top == 2:
+        ns = 'vns'
+    elif top == 3:
+        nil = 'x'
+    elif top == 4:
+        ns = None
+    state = (tuple(tuple(n) for n in nodes), nil, ns)
+    if top == 5:
+        state = state[:2]
+    elif top == 6:
+        state = [list(state[0]), nil, ns]
+    return state
+
+
+def setstate_use(state):
+    """-> ('exc', type) | ('ok', consistent, msg)"""
+    import optree
+    try:
+        s = optree.PyTreeSpec.__new__(optree.PyTreeSpec)
+        s.__setstate__(state)
+    except RecursionError:
+        return ('exc', 'RecursionError')
+    except Exception as e:  # noqa: BLE001
+        return ('exc', type(e).__name__)
+    # accepted: every inspection must be consistent with a real tree
+    msgs = []
+    try:
+        n = s.num_leaves
+        repr(s)
+        try:
+            hash(s)
+        except TypeError:
+            pass
+        if not (s == s):
+            msgs.append('not equal to itself')
+        paths, acc, ch = s.paths(), s.accessors(), s.children()
+        s.entries()
+        if not (len(paths) == n and len(acc) == n):
+            msgs.append(f'num_leaves={n} but {len(paths)} paths / {len(acc)} accessors')
+        if s.num_children != len(ch):
+            msgs.append(f'num_children={s.num_children} but {len(ch)} children')
+        if s.num_nodes != len(state[0]):
+            msgs.append(f'num_nodes={s.num_nodes} but {len(state[0])} node states')
+        if sum(c.num_leaves for c in ch) != n - (1 if s.is_leaf() else 0):
+            msgs.append('children leaves do not add up')
+        if sum(c.num_nodes for c in ch) + 1 != s.num_nodes:
+            msgs.append('children nodes do not add up')
+        s.is_prefix(s)
+        s.compose(s)
+        s.transform(lambda x: x)
+        s.broadcast_to_common_suffix(s)
+        s.flatten_up_to(s.unflatten([0] * n)) if all(nd[0] != 0 for nd in state[0]) else None
+        has_custom = any(nd[0] == 0 for nd in state[0])
+        try:
+            tree = s.unflatten(range(n))
+        except RecursionError:
+            raise
+        except Exception:  # noqa: BLE001
+            tree = NotImplemented      # a namedtuple / deque / custom constructor may reject the children
+        if tree is not NotImplemented and not has_custom:
+            leaves, s2 = optree.tree_flatten(tree, none_is_leaf=s.none_is_leaf, namespace=s.namespace)
+            if leaves != list(range(n)):
+                msgs.append(f'unflatten/flatten gives leaves {leaves[:8]} for {n} leaves')
+            elif s2 != s:
+                msgs.append(f'structure of the unflattened tree {s2!r} != {s!r}')
+    except RecursionError:
+        return ('exc', 'RecursionError')
+    except Exception as e:  # noqa: BLE001
+        # a Python exception - InternalError included - is an acceptable outcome for C16 (see ASSUMPTIONS)
+        return ('exc_after', type(e).__name__)
+    return ('ok', not msgs, '; '.join(msgs))
+
+
+def cell_setstate(cell):
+    state = setstate_apply(cell)
+    r = setstate_use(state)
+    return {'status': 'setstate', 'verdict': r[0], 'consistent': r[1] if r[0] == 'ok' else None,
+            'msg': (r[2] if r[0] == 'ok' else r[1]), 'state': repr(state)[:400]}
+
+
+def cell_setstate_sweep(cell):
+    """every single-field edit of one node of one base state (journalled one by one so that a crash names the edit)"""
+    b, i = cell['base'], cell['node']
+    nodes = setstate_bases()[b][0]
+    n = acc = 0
+    bad = []
+    for field in range(8):
+        for vi in range(len(setstate_values(field, nodes[i][field]))):
+            case = {'kind': 'setstate', 'base': b, 'edits': [['set', i, field, vi]], 'top': 0}
+            runner.journal(case)
+            r = setstate_use(setstate_apply(case))
+            n += 1
+            if r[0] == 'ok':
+                acc += 1
+                if not r[1]:
+                    bad.append([case, r[2]])
+    for op in ('del', 'dup', 'swap', 'trunc', 'subtree'):
+        for vi in range(6 if op in ('trunc', 'subtree') else 1):
+            for top in range(7 if op == 'dup' and i == 0 else 1):
+                case = {'kind': 'setstate', 'base': b, 'edits': [[op, i, vi, vi]], 'top': top}
+                runner.journal(case)
+                r = setstate_use(setstate_apply(case))
+                n += 1
+                if r[0] == 'ok':
+                    acc += 1
+                    if not r[1]:
+                        bad.append([case, r[2]])
+    return {'status': 'setstate_sweep', 'calls': n, 'accepted': acc, 'bad': bad[:5]}
+
+
 # ------------------------------------------------------------------ generated API programs
 def make_pool():
     import optree
@@ -847,7 +1027,9 @@ class C16(runner.Prop):
     RULE = ('cells executed in an ASan+UBSan worker: (depth) 9 node kinds x depths {limit-1, limit, limit+1, limit+2} x 3 traversals '
             '+ ~28 operations on at-limit trees; (selfref) 8 self-referential / endless inputs x 8 operations; (mutation) 11 '
             'traversals x 8 containers x 7 callback positions x 7 mutation kinds x every callback index k (K measured by a dry run); '
-            '(args) ~2000 out-of-range / wrong-type argument calls incl. malformed __setstate__ states; (program) Hypothesis-generated '
+            '(args) ~2000 out-of-range / wrong-type argument calls incl. malformed __setstate__ states; (setstate) every single-field edit of every node of '
+            'four pickle states covering all node kinds + Hypothesis-generated multi-edit states (field edits, node deletion / duplication / swap / truncation, '
+            'flag edits): the state is rejected or yields a treespec whose inspections are mutually consistent and round-trip; (program) Hypothesis-generated '
             'API-confusion programs (<= 25 calls over a mixed object pool, results fed back); violation = worker death (signal / '
             'sanitizer report) or a verdict mismatch between traversals at a depth; non-trivial = mutation cell whose callback fired, '
             'or a program with >= 5 calls; distinct = sha1(cell)')
@@ -860,11 +1042,16 @@ class C16(runner.Prop):
     _w = None
 
     def budget(self, tier):
-        return 60 if tier == 'quick' else 1500
+        return 160 if tier == 'quick' else 4000
 
     def strategy(self, tier):
         step = st.tuples(st.integers(0, 200), st.lists(st.integers(0, 80), min_size=0, max_size=3), st.integers(0, 31)).map(list)
-        return st.fixed_dictionaries({'kind': st.just('program'), 'steps': st.lists(step, min_size=1, max_size=25)})
+        program = st.fixed_dictionaries({'kind': st.just('program'), 'steps': st.lists(step, min_size=1, max_size=25)})
+        edit = st.tuples(st.sampled_from(['set', 'set', 'set', 'set', 'del', 'dup', 'swap', 'trunc', 'subtree']), st.integers(0, 30),
+                         st.integers(0, 7), st.integers(0, 30)).map(list)
+        setstate = st.fixed_dictionaries({'kind': st.just('setstate'), 'base': st.integers(0, 3),
+                                          'edits': st.lists(edit, min_size=1, max_size=4), 'top': st.sampled_from([0, 0, 0, 0, 1, 2, 3, 4, 5, 6])})
+        return st.integers(0, 1).flatmap(lambda k: program if k == 0 else setstate)
 
     def shrink_extra(self, case):
         if case.get('kind') == 'program':
@@ -873,6 +1060,14 @@ class C16(runner.Prop):
                 c['steps'] = case['steps'][:i] + case['steps'][i + 1:]
                 if c['steps']:
                     yield c
+        if case.get('kind') == 'setstate':
+            for i in range(len(case['edits'])):
+                c = dict(case)
+                c['edits'] = case['edits'][:i] + case['edits'][i + 1:]
+                if c['edits']:
+                    yield c
+            if case.get('top'):
+                yield dict(case, top=0)
 
     def worker(self, ctx):
         if C16._w is None:
@@ -945,7 +1140,8 @@ class C16(runner.Prop):
                    'depth': lambda c: f"depth/{c['container']}", 'selfref': lambda c: f"selfref/{c['container']}",
                    'args': lambda c: 'args', 'program': lambda c: 'program', 'count': lambda c: 'count',
                    'malformed': lambda c: f"malformed/{c['how']}",
-                   'deepspec': lambda c: f"deepspec/{c['method']}", 'pairs': lambda c: f"pairs/{c['a']}"}[kind](case)
+                   'deepspec': lambda c: f"deepspec/{c['method']}", 'pairs': lambda c: f"pairs/{c['a']}",
+                   'setstate': lambda c: 'setstate', 'setstate_sweep': lambda c: 'setstate'}[kind](case)
             summary = _first_lines(crash['stderr'])
             ctx.fail(f'crash/{key}', f'worker died ({what}) on {json.dumps(crash["journal"] or case)[:300]} :: {summary}')
             return
@@ -1002,6 +1198,20 @@ class C16(runner.Prop):
             ctx.label('args_cell')
             ctx.extra_cov['arg_calls'] = ctx.extra_cov.get('arg_calls', 0) + res['calls']
             ctx.extra_cov['arg_calls_internal_error'] = ctx.extra_cov.get('arg_calls_internal_error', 0) + res['internal_errors']
+        elif kind == 'setstate':
+            ctx.nontrivial(True)
+            ctx.label(f'setstate:{res["verdict"]}')
+            ctx.extra_cov['setstate_calls'] = ctx.extra_cov.get('setstate_calls', 0) + 1
+            ctx.extra_cov['setstate_accepted'] = ctx.extra_cov.get('setstate_accepted', 0) + (res['verdict'] == 'ok')
+            if res['verdict'] == 'ok' and not res['consistent']:
+                ctx.fail('setstate/accepted_inconsistent', f'{case}: {res["msg"]} :: {res["state"]}')
+        elif kind == 'setstate_sweep':
+            ctx.nontrivial(True)
+            ctx.label('setstate_sweep_cell')
+            ctx.extra_cov['setstate_calls'] = ctx.extra_cov.get('setstate_calls', 0) + res['calls']
+            ctx.extra_cov['setstate_accepted'] = ctx.extra_cov.get('setstate_accepted', 0) + res['accepted']
+            for c, msg in res['bad']:
+                ctx.fail('setstate/accepted_inconsistent', f'{c}: {msg}')
         elif kind == 'program':
             ctx.nontrivial(len(case['steps']) >= 5)
             ctx.label('program')
@@ -1023,6 +1233,9 @@ class C16(runner.Prop):
         cells.append({'kind': 'args'})
         for ka in PAIR_KINDS:
             cells.append({'kind': 'pairs', 'a': ka})
+        for b, (nodes, _nil, _ns) in enumerate(setstate_bases()):
+            for i in range(len(nodes)):
+                cells.append({'kind': 'setstate_sweep', 'base': b, 'node': i})
         deep_depths = (limit + 1, 2 * limit, 8 * limit, 64 * limit) if ctx.tier == 'thorough' else (limit + 1, 8 * limit, 64 * limit)
         for m in DEEPSPEC_METHODS:
             for i, d in enumerate(deep_depths):
